@@ -329,7 +329,7 @@ def ancestry(s: str, t: str, inh: bool, desc: bool) -> bool:
             return True
     finally:
         versioning.get_timestamp = saved
-    V.reached()
+    V.reached("both_selectors_accepted")
     sp = s.split(".")
     tp = t.split(".")
     exp = (s == t) or (inh and tp[:len(sp)] == sp) or (desc and sp[:len(tp)] == tp)
